@@ -557,6 +557,18 @@ theorem counter_pattern_overlap_default :
      | _ => false) = true := by
   refine ⟨by decide +kernel, by decide +kernel⟩
 
+/-- finding C19-key-collision (the C19 face of C04-key-collision): an input member spelled like the Python attribute name of a
+    declared property whose JSON name is different lands on that attribute; the property is annotated `Maybe[List[Any]]`
+    and holds a number. -/
+def holderCollide : Elem := .mk (.object "C") { hasProps := true } [] none none
+  [({ name := "a_b", source := some "a b" }, .mk .array { itemsKind := .single } [Elem.trivial] none none [] [] none none [] [])]
+  [] none none [] []
+
+theorem counter_key_collision :
+    (match holderCollide.call envNone (.val (.obj [("a_b", .num (.flt 1 1))])) with
+     | .ok (.inst _ [("a_b", .num _)]) => true
+     | _ => false) = true := by decide +kernel
+
 /-- non-vacuity: a tree with tuple items, a union and a class satisfies `Hyp` and is called successfully -/
 def good : Elem := .mk .array { itemsKind := .tuple, addItemsB := false } [Elem.leaf .string, qCls] none none [] [] none none [] []
 example : (annot good).show = "List[Union[str, Q]]" := by decide +kernel
